@@ -294,12 +294,20 @@ def handleC16Misc : Handler := fun cfg op a impl =>
   | "star_write", [old, csr, ssr, csc, ssc] =>
     let c := cpuWith (.msr ARCH_STAR) old
     let fmt : Except StarError Unit → List String := fun e => match e with | .ok _ => ["ok"] | .error e => ["err", fmtStarErr e]
-    let exp : Expect := match starRejection csr ssr csc ssc with
-      | some e => { reg := .msr ARCH_STAR, res := some ["err", e], post := some old, quiet := true }   -- rejected before any wrmsr
-      | none =>
-        if ssr ≥ 8 then { reg := .msr ARCH_STAR, res := some ["ok"], post := some ((ssr - 8) * 2^48 + csc * 2^32), quiet := false }
-        else { reg := .msr ARCH_STAR, res := none, post := none, quiet := false }          -- null SYSRET SS: outside the documented domain
-    some (c16 c (Star.write cfg (bv16 csr) (bv16 ssr) (bv16 csc) (bv16 ssc) c) fmt exp impl)
+    let ran := Star.write cfg (bv16 csr) (bv16 ssr) (bv16 csc) (bv16 ssc) c
+    -- base selector of the SYSRET pair, modulo 2^16 (selectors are 16-bit quantities)
+    let base := (ssr + 65536 - 8) % 65536
+    match starRejection csr ssr csc ssc with
+    | some e =>   -- rejected before any wrmsr
+      some (c16 c ran fmt { reg := .msr ARCH_STAR, res := some ["err", e], post := some old, quiet := true } impl)
+    | none =>
+      let accepted := c16 c ran fmt { reg := .msr ARCH_STAR, res := some ["ok"], post := some (base * 2^48 + csc * 2^32) } impl
+      if ssr ≥ 8 then some accepted
+      else
+        -- null SYSRET SS (not a documented rejection): either accepted with the base written
+        -- modulo 2^16, or a panic that writes nothing
+        let refused := c16 c ran fmt { reg := .msr ARCH_STAR, res := some ["panic"], post := some old, quiet := true } impl
+        some { accepted with oracleOk := accepted.oracleOk || refused.oracleOk }
   | "star_write_read", [old, csr, ssr, csc, ssc] =>
     let c := cpuWith (.msr ARCH_STAR) old
     let ran := (do
@@ -309,13 +317,18 @@ def handleC16Misc : Handler := fun cfg op a impl =>
       | .error e => pure (Except.error e) : M (Except StarError _)) c
     let fmt : Except StarError (BitVec 16 × BitVec 16 × BitVec 16 × BitVec 16) → List String := fun e =>
       match e with | .ok q => "ok" :: fmtQuad q | .error e => ["err", fmtStarErr e]
-    let exp : Expect := match starRejection csr ssr csc ssc with
-      | some e => { reg := .msr ARCH_STAR, res := some ["err", e], post := some old, quiet := true }
-      | none =>
-        if ssr ≥ 8 && csc + 8 < 65536 then
-          { reg := .msr ARCH_STAR, res := some ["ok", toString csr, toString ssr, toString csc, toString ssc], post := none, quiet := false }
-        else { reg := .msr ARCH_STAR, res := none, post := none, quiet := false }
-    some (c16 c ran fmt exp impl)
+    let base := (ssr + 65536 - 8) % 65536
+    match starRejection csr ssr csc ssc with
+    | some e =>
+      some (c16 c ran fmt { reg := .msr ARCH_STAR, res := some ["err", e], post := some old, quiet := true } impl)
+    | none =>
+      -- an accepted quadruple is what the next read returns
+      let quad := ["ok", toString csr, toString ssr, toString csc, toString ssc]
+      let accepted := c16 c ran fmt { reg := .msr ARCH_STAR, res := some quad, post := some (base * 2^48 + csc * 2^32) } impl
+      if ssr ≥ 8 then some accepted
+      else
+        let refused := c16 c ran fmt { reg := .msr ARCH_STAR, res := some ["panic"], post := some old, quiet := true } impl
+        some { accepted with oracleOk := accepted.oracleOk || refused.oracleOk }
   -- SFMASK
   | "sfmask_read", [old] =>
     let c := cpuWith (.msr ARCH_SFMASK) old
